@@ -149,9 +149,24 @@ def parseBlock (str : List Char) : Option Block :=
     | some [b, s, e] => if s = 0 then none else if closed ⟨b, s, e⟩ then some ⟨b, s, e⟩ else none
     | _ => none
 
-/-- `RangeParser::Parse`: strip blanks, split at commas, parse each block -/
+/-- a run of blanks with a digit on either side (`1 2:30`): `seen` says that the last non-blank character so far was a digit and at least one blank followed it -/
+def blankInNumber : List Char → Bool → Bool → Bool
+  | [], _, _ => false
+  | c :: cs, lastDigit, gap =>
+    if c = ' ' then blankInNumber cs lastDigit lastDigit
+    else if isDigit c && gap then true
+    else blankInNumber cs (isDigit c) false
+
+/-- the outer shape `RangeParser::Parse` insists on: no blank inside a number, and (unless nothing is left) no empty block between commas —
+    the tokenizer drops empty fields, so the commas are counted -/
+def outerOK (str : List Char) : Bool :=
+  !blankInNumber str false false &&
+  (let s := str.filter (· ≠ ' ')
+   s.isEmpty || countChar ',' s + 1 == (tokenize (· = ',') s).length)
+
+/-- `RangeParser::Parse`: refuse blanks inside numbers and empty blocks, strip blanks, split at commas, parse each block -/
 def parse (str : List Char) : Option (List Block) :=
-  (tokenize (· = ',') (str.filter (· ≠ ' '))).mapM parseBlock
+  if outerOK str then (tokenize (· = ',') (str.filter (· ≠ ' '))).mapM parseBlock else none
 
 /-- `iterator::operator++` inside one block: the next value, or `none` when the block is left -/
 def next (k : Block) (cur : Int) : Option Int :=
@@ -195,7 +210,7 @@ def specBlock (str : List Char) : Option Block :=
   | _ => none
 
 def specParse (str : List Char) : Option (List Block) :=
-  (tokenize (· = ',') (str.filter (· ≠ ' '))).mapM specBlock
+  if outerOK str then (tokenize (· = ',') (str.filter (· ≠ ' '))).mapM specBlock else none
 
 def showInt (i : Int) : List Char := (toString i).toList
 
